@@ -17,7 +17,7 @@ RULE = (
     "stems; (c') long structures: 30-120 stems of 1-15 pairs in a random nested arrangement plus up to 4 crossing "
     "chords, unpaired runs of 0-30 (60-4000 nt); (d) balanced dot-bracket strings over up to 30 bracket types, built by construction. For every "
     "structure every encoder (dot_bracket, fcfs, each member of all_dot_brackets when the enumeration is "
-    "<=5000 orderings) plus BpSeq text round trip, the file entry points (BpSeq.from_file, DotBracket.from_file on 2- and 3-line files, "
+    "<=5000 orderings, and convert_to_dot_bracket(solver) with nine scripted solvers that stop without an optimum - four non-optimal statuses x variables unset / all zero - or raise PuLP's error) plus BpSeq text round trip, the file entry points (BpSeq.from_file, DotBracket.from_file on 2- and 3-line files, "
     "MultiStrandDotBracket.from_file, with and without a final newline), from_dotbracket and MultiStrandDotBracket.from_string on 1-3 "
     "strands is compared with an independent 30-stack reference decoder. A case is non-trivial when it has a "
     "crossing pair of stems, a zero-length hairpin, two adjacent stems, or needs >=3 levels; distinct = distinct "
@@ -132,6 +132,25 @@ def oracle_structure(case, all_limit=5000) -> list:
             if str(back) != text:
                 out.append(D(f"C01:{tag}:from_dotbracket-back", f"from_dotbracket({db.structure!r}) != source BPSEQ"))
     out += file_entry_points(text, b, seq)
+    if comps:
+        # the encoder that takes a caller's solver, with solvers that stop without an optimum (status NotSolved /
+        # Undefined / Infeasible / Unbounded, variables unset or all zero) or raise PuLP's error: whatever notation
+        # comes back must still decode to exactly the source pairs
+        import pulp
+
+        from rnaverif.props.c13 import _make_scripted
+
+        Scripted = _make_scripted(pulp)
+        for beh in ("notsolved", "undefined", "infeasible", "unbounded", "raise"):
+            for varmode in ("unset", "zero"):
+                if beh == "raise" and varmode == "zero":
+                    continue
+                b3 = BpSeq.from_string(text)
+                try:
+                    db3 = b3.convert_to_dot_bracket(Scripted([(beh, varmode)]))
+                except Exception as exc:  # whether it may raise is C13's claim, not this property's
+                    continue
+                out += check_notation(f"convert[{beh}/{varmode}]", db3, seq, pairs)
     # multi-strand text path
     s = b.dot_bracket.structure
     if isinstance(s, str) and len(s) == len(seq) and all(ch in "ACGTURYSWKMBDHVNacgturyswkmbdhvn.-" for ch in seq):
